@@ -34,7 +34,7 @@ def _run_js_batch(raws, tag):
     here = os.path.join(core.VERIF, "harness", "js")
     import shutil
     try:
-        r = subprocess.run([node_bin(), "--no-warnings", "--max-old-space-size=512", os.path.join(here, "runner.mjs"), "/repo/src/js/pose_format/src/parser.ts", scratch, inp],
+        r = subprocess.run([node_bin(), "--no-warnings", "--max-old-space-size=512", os.path.join(here, "runner.mjs"), os.path.join(os.environ.get("POSE_REPO", "/repo"), "src/js/pose_format/src/parser.ts"), scratch, inp],
                            capture_output=True, text=True, timeout=600)
         err, code = r.stderr, r.returncode
         outs = [json.loads(l) for l in r.stdout.splitlines() if l.strip().startswith("{")] if code == 0 else []
